@@ -2,6 +2,7 @@
 from __future__ import annotations
 
 import json
+import re
 
 from common import Check, TRUSTED_BASE_COMMON, enc_bool, enc_str, enc_strs, model_batch, Toks
 from ports import run_port
@@ -153,6 +154,17 @@ def run(chk: Check) -> None:
         lines = out.split("\n")
         if len(lines) >= 2:
             chk.nontrivial((c["t"], c["w"], c["i1"], c["i2"], "para"))
+        # every hard break of the text (a newline after an odd number of backslashes, or after two or more spaces) ends a line of the
+        # output with the break's backslash, and nothing else does (skipped where a word ends in a backslash without a newline after it: such a
+        # word at the end of an output line is finding D-40, before a two-space break finding D-84)
+        if not re.search(r"\\[ \t\u00a0\u2003\u3000\x0c\x1f\u2028]", c["t"]) and not c["t"].rstrip(" ").endswith(("\\", "  ")):
+            nin = len(re.findall(r"(?<!\\)(?:\\\\)*\\\n", c["t"])) + len(re.findall(r"(?<=[^\s\\])  +\n(?=[^\n]*\S)", c["t"]))
+            nout = sum(1 for l in lines[:-1] if (len(l) - len(l.rstrip("\\"))) % 2 == 1)
+            if nin != nout and not re.search(r"(?:^|\n)[ \t]*(?:\\\n|  +\n)", c["t"]):
+                npb += 1
+                chk.fail("property", {"text": c["t"], "width": c["w"], "i1": c["i1"], "i2": c["i2"], "out": out, "hard_breaks_in": nin, "hard_breaks_out": nout},
+                         f"the text has {nin} hard line breaks, the output {nout}", classify)
+                continue
         for k, l in enumerate(lines):
             ind = c["i1"] if k == 0 else c["i2"]
             if l.strip() and not l.startswith(ind.rstrip() if not l[len(ind.rstrip()):].strip() else ind):
